@@ -194,7 +194,15 @@ SPECS["C14"] = dict(
            dict(name="doq-doh", pkg="internal/upstream/transport", run="TestVerifC14Q", go="go1.26", env=E3ENV, gomaxprocs=1, engines=E3ENGINES,
                 files=dict(TRANSPORT_COMMON, **{"harness/transport/zz_verif_c14q_test.go": "internal/upstream/transport/zz_verif_c14q_test.go"}),
                 params={"quick": {"DEPTH": 5, "FAULTS": 2}, "thorough": {"DEPTH": 7, "FAULTS": 3}},
-                budget={"quick": 60, "thorough": 600})],
+                budget={"quick": 60, "thorough": 600}),
+           dict(name="pipeline-e2", pkg="internal/upstream/transport", run="TestVerifC14E2", go="go", engines=E2ENGINES, shards=8,
+                files={"harness/transport/zz_verif_c05e2_test.go": "internal/upstream/transport/zz_verif_c05e2_test.go",
+                       "harness/transport/zz_verif_c14e2_test.go": "internal/upstream/transport/zz_verif_c14e2_test.go"},
+                generate=rewrite_imports("internal/upstream/transport/pipeline_conn.go", {"sync": ("sync", "vsync")}),
+                params={"quick": {"PREEMPTIONS": 2}, "thorough": {"PREEMPTIONS": 3}}, budget={"quick": 60, "thorough": 600}),
+           dict(name="udp-fallback", pkg="internal/upstream", run="TestVerifC16", go="go1.26", env=E3ENV, gomaxprocs=1, engines=E3ENGINES, shards=4,
+                files=dict(UPSTREAM_COMMON, **{"harness/upstream/zz_verif_c16_test.go": "internal/upstream/zz_verif_c16_test.go"}),
+                budget={"quick": 60, "thorough": 300})],
 )
 
 
@@ -297,7 +305,7 @@ SPECS["C07"] = dict(
     parts=[router_part("cache", "TestVerifC07", ["zz_verif_c07_test.go", "zz_verif_c08_test.go", "zz_verif_c03_test.go"],
                        params={"quick": {"MAXREC": 2, "MAXRANGES": 2}, "thorough": {"MAXREC": 3, "MAXRANGES": 3}}),
            router_part("with-refresh", "TestVerifC19", ["zz_verif_c19_test.go", "zz_verif_c07_test.go", "zz_verif_c08_test.go", "zz_verif_c03_test.go"],
-                       params={"quick": {"DEPTH": 5, "FAULTS": 1, "SHARDDEPTH": 3}, "thorough": {"DEPTH": 6, "FAULTS": 2}}),
+                       params={"quick": {"DEPTH": 4, "FAULTS": 1, "SHARDDEPTH": 3}, "thorough": {"DEPTH": 5, "FAULTS": 2}}),
            dict(name="mem-e2", pkg="internal/cache", run="TestVerifC07Mem", go="go", engines=E2ENGINES,
                 files={"harness/cache/zz_verif_c07mem_test.go": "internal/cache/zz_verif_c07mem_test.go"},
                 generate=rewrite_imports("internal/cache/mem.go", {"sync": ("sync", "vsync"), "github.com/maypok86/otter": ("otter", "votter")}),
@@ -316,7 +324,8 @@ SPECS["C19"] = dict(
     rule="see evidence rule written by the harness",
     assumptions=[],
     parts=[router_part("prefetch", "TestVerifC19", ["zz_verif_c19_test.go", "zz_verif_c07_test.go", "zz_verif_c08_test.go", "zz_verif_c03_test.go"],
-                       params={"quick": {"DEPTH": 5, "FAULTS": 1, "MANYKEYS": 100, "SHARDDEPTH": 3}, "thorough": {"DEPTH": 7, "FAULTS": 3, "MANYKEYS": 400}}),
+                       params={"quick": {"DEPTH": 4, "FAULTS": 1, "MANYKEYS": 100, "SHARDDEPTH": 3}, "thorough": {"DEPTH": 6, "FAULTS": 2, "MANYKEYS": 400}},
+                       budget={"quick": 90, "thorough": 1500}),
            dict(name="ctl-e2", pkg="app/router", run="TestVerifC19E2", go="go", engines=E2ENGINES,
                 files={"harness/router/zz_verif_c19e2_test.go": "app/router/zz_verif_c19e2_test.go"},
                 generate=rewrite_imports("app/router/cache.go", {"sync": ("sync", "vsync")}),
@@ -375,7 +384,8 @@ SPECS["C17"] = dict(
     assumptions=["dial_addr spellings outside the documented 'IP or domain, port optional, @name' forms are not in the alphabet"],
     parts=[dict(name="addr", pkg="internal/upstream", run="TestVerifC17Addr", go="go1.26", env=E3ENV, engines=E3ENGINES,
                 files=dict(UPSTREAM_COMMON, **{"harness/upstream/zz_verif_c17_test.go": "internal/upstream/zz_verif_c17_test.go"}), budget={"quick": 120, "thorough": 120}),
-           router_part("tls", "TestVerifC17TLS", ["zz_verif_c17_test.go", "zz_verif_c03_test.go"], shards=1, gomaxprocs=4),
+           dict(name="tls", pkg="app/router", run="TestVerifC17TLS", go="go", engines=("report", "refdns", "env", "sched", "choice"), shards=1, gomaxprocs=4,
+                files={"harness/router/zz_verif_c17_test.go": "app/router/zz_verif_c17_test.go"}, budget={"quick": 300, "thorough": 300}),
            dict(name="quic-addr", pkg="internal/upstream", run="TestVerifC17Quic", go="go1.26", env=E3ENV, engines=E3ENGINES, shards=1, gomaxprocs=4,
                 files=dict(UPSTREAM_COMMON, **{"harness/upstream/zz_verif_c17q_test.go": "internal/upstream/zz_verif_c17q_test.go"}), budget={"quick": 120, "thorough": 120})],
 )
